@@ -74,19 +74,43 @@ def functions_of(module):
     return out
 
 
+def _class_functions(cls):
+    out = []
+    for v in vars(cls).values():
+        if isinstance(v, (staticmethod, classmethod)):
+            out.append(v.__func__)
+        elif isinstance(v, property):
+            out.extend(g for g in (v.fget, v.fset, v.fdel) if g is not None)
+        elif isinstance(v, types.FunctionType):
+            out.append(v)
+        else:
+            out.extend(g for g in (getattr(v, 'fget', None),
+                                   getattr(v, 'fset', None))
+                       if isinstance(g, types.FunctionType))
+    return out
+
+
 _DONE = set()
 
 
 def install(modules):
     """Make every line of every function of the named modules (dotted names,
-    resolved in the tree under test) a scheduling point.  Idempotent."""
+    resolved in the tree under test; 'module:Class' restricts to one class)
+    a scheduling point.  Idempotent."""
     harness.setup()
     for name in modules:
         if name in _DONE:
             continue
         _DONE.add(name)
-        mod = importlib.import_module(name)
-        pysched.add_line_points(*functions_of(mod))
+        modname, _, clsname = name.partition(':')
+        mod = importlib.import_module(modname)
+        fns = functions_of(mod)
+        if clsname:
+            # 'module:Class' - only the functions of that class
+            keep = {id(getattr(getattr(f, '__func__', f), '__code__', None))
+                    for f in _class_functions(getattr(mod, clsname))}
+            fns = [f for f in fns if id(f.__code__) in keep]
+        pysched.add_line_points(*fns)
 
 
 def run(body, prefix, expect, budget, modules, horizon=200000):
